@@ -51,6 +51,16 @@
 (* Limiting - the permits are state of the cell, `lim.spent` are the cells whose permits are used *)
 (* up, `lim.off` the cells a Close disabled; "f" a request whose backend call fails, so that the  *)
 (* policies a Resilient filter works under show (number of attempts).                            *)
+(* Which limit applies to a URL: besides the URL of class "x" (whose rule names its policy, the    *)
+(* same in every generation) a Limiting filter has a rule for the URL of class "d" that falls     *)
+(* under the filter's *default policy*.  pobj[id].dv is the version of that choice: odd versions  *)
+(* select a policy of Limit permits per period ("tight"), even ones a policy that never limits    *)
+(* ("loose").  An update of kind "dflt" changes only this choice (the policies themselves are the *)
+(* same in the old and the new spec).  The limiter of that rule is a state cell of its own        *)
+(* (pobj[id].dref[i], `lim.dspent`): Inherit treats it like the other cell (Inh(k)) as long as    *)
+(* the rule falls under the same policy, and creates a fresh one - built from the policy now in   *)
+(* force - when it does not.  Knob Stale (FALSE in the code): Inherit keeps the limiter of the    *)
+(* rule although the policy the rule falls under has changed.                                     *)
 (* The contract (what C11 states) are the invariants at the end; they must hold for the modes of  *)
 (* the real code.                                                                                 *)
 EXTENDS Integers, Sequences, FiniteSets
@@ -71,9 +81,10 @@ CONSTANTS Reqs,        \* request processes (strings)
           IPs,         \* client addresses of requests: subset of {"n", "b"} ("b" is blocked by every other options version)
           LoadPerStep, \* impl knob (FALSE in the code): every step of a request re-reads m.inst
           Targets,     \* what a request may address: "srv" (through the server) and/or pipelines (directly)
-          PipKinds,    \* what a pipeline update may change: subset of {"filters", "resil", "both"}
-          Classes,     \* request classes: subset of {"n", "x", "f"}
-          Reuse        \* impl knob (FALSE in the code): reload takes over the instance of a filter whose own spec is unchanged
+          PipKinds,    \* what a pipeline update may change: subset of {"filters", "resil", "both", "dflt"}
+          Classes,     \* request classes: subset of {"n", "x", "f", "d"}
+          Reuse,       \* impl knob (FALSE in the code): reload takes over the instance of a filter whose own spec is unchanged
+          Stale        \* impl knob (FALSE in the code): Inherit keeps the limiter of a URL rule whose policy has changed
 
 NF == Len(Kinds)
 Pipes == {Routed[1], Routed[2]} \cup Others
@@ -81,6 +92,7 @@ Pipes == {Routed[1], Routed[2]} \cup Others
 Limiting == {"rl"}     \* kinds that limit class "x" requests to Limit permits per period and state cell
 Resilient == {"px"}    \* kinds that work under the pipeline-level resilience policies
 Limit == 1
+DTight(dv) == (dv % 2) = 1   \* the policy version dv of the default-policy choice selects: tight (Limit permits) / loose (no limit)
 
 Inh(k) == CASE k = "rl" -> InhRl [] k = "px" -> InhPx [] OTHER -> "fresh"
 Cls(k) == CASE k = "rl" -> ClsRl [] k = "px" -> ClsPx [] OTHER -> "stop"
@@ -90,7 +102,8 @@ VARIABLES muxInst,  \* generation (index into sgen) stored in mux.inst
           ns,       \* [Pipes -> id]  the namespace map (0 = absent)
           pobj,     \* sequence of pipeline generation objects
           dead,     \* set of <<creator id, filter index>>: state cells killed by a Close
-          lim,      \* [spent, off]: cells whose permits for class "x" are used up / cells a Close disabled
+          lim,      \* [spent, off, dspent]: cells whose permits for class "x" are used up / cells a Close disabled /
+                    \*   cells of the default-policy rule (class "d") whose permits are used up
           u,        \* the updater: [op, p, new, i]
           rq,       \* [Reqs -> request record]
           cnt,      \* budget counters [srv, pip, other, same] and per request process
@@ -111,13 +124,19 @@ VerOf(id) == IF id = 0 THEN 0 ELSE pobj[id].ver
 NextVer(p) == Cardinality({j \in 1..Len(pobj) : pobj[j].name = p}) + 1
 FvOf(id) == IF id = 0 THEN 0 ELSE pobj[id].fv
 PvOf(id) == IF id = 0 THEN 0 ELSE pobj[id].pv
-(* a generation object built from version fv of the filters and pv of the resilience section; an  *)
-(* initialised one (Init) has its own state cells and works under its own policies               *)
-NewObj(p, v, fv, pv, id, init) ==
-    [name |-> p, ver |-> v, fv |-> fv, pv |-> pv, closed |-> FALSE,
+DvOf(id) == IF id = 0 THEN 0 ELSE pobj[id].dv
+(* a generation object built from version fv of the filters (whose default-policy choice is dv)   *)
+(* and pv of the resilience section; an initialised one (Init) has its own state cells and works  *)
+(* under its own policies                                                                         *)
+NewObjD(p, v, fv, pv, dv, id, init) ==
+    [name |-> p, ver |-> v, fv |-> fv, pv |-> pv, dv |-> dv, closed |-> FALSE,
      ref |-> [i \in 1..NF |-> IF init THEN id ELSE 0],
+     dref |-> [i \in 1..NF |-> IF init /\ Kinds[i] \in Limiting THEN id ELSE 0],
      pol |-> [i \in 1..NF |-> IF init /\ Kinds[i] \in Resilient THEN pv ELSE 0],
-     perm |-> [i \in 1..NF |-> 0]]       \* observation: class "x" requests this generation's filter i let pass
+     perm |-> [i \in 1..NF |-> 0],       \* observation: class "x" requests this generation's filter i let pass
+     dperm |-> [i \in 1..NF |-> 0]]      \* observation: class "d" requests this generation's filter i let pass
+NewObj(p, v, fv, pv, id, init) == NewObjD(p, v, fv, pv, 1, id, init)
+Lim0 == [spent |-> {}, off |-> {}, dspent |-> {}]
 Valid(o, i) == o.ref[i] # 0 /\ <<o.ref[i], i>> \notin dead
 Killed(o) == {<<o.ref[i], i>> : i \in {j \in 1..NF : Cls(Kinds[j]) = "kill" /\ o.ref[j] # 0}}
 Disabled(o) == {<<o.ref[i], i>> : i \in {j \in 1..NF : Cls(Kinds[j]) = "disable" /\ o.ref[j] # 0}}
@@ -128,7 +147,7 @@ Init ==
     /\ pobj = <<NewObj(Routed[1], 1, 1, 1, 1, TRUE), NewObj(Routed[2], 1, 1, 1, 2, TRUE)>>
     /\ ns = [p \in Pipes |-> IF p = Routed[1] THEN 1 ELSE IF p = Routed[2] THEN 2 ELSE 0]
     /\ dead = {}
-    /\ lim = [spent |-> {}, off |-> {}]
+    /\ lim = Lim0
     /\ u = Idle
     /\ rq = [r \in Reqs |-> NoReq]
     /\ cnt = [srv |-> 0, pip |-> 0, other |-> 0, same |-> 0, req |-> [r \in Reqs |-> 0]]
@@ -158,14 +177,16 @@ SrvStore ==
     /\ UNCHANGED <<sgen, ns, pobj, dead, lim, rq, cnt>>
 
 (* Update/ApplyPipeline under tc.mutex: the new entity exists, nothing inherited yet; the new     *)
-(* spec differs from the running one in the filters, in the resilience section or in both        *)
+(* spec differs from the running one in the filters, in the resilience section or in both; "dflt" *)
+(* is a change of the filters that switches the default policy of the Limiting filters           *)
 PipBegin(p, kind) ==
     /\ CanBegin /\ cnt.pip < MaxPip /\ ns[p] # 0 /\ kind \in PipKinds
     /\ LET old == pobj[ns[p]]
            fv == IF kind = "resil" THEN old.fv ELSE old.fv + 1
-           pv == IF kind = "filters" THEN old.pv ELSE old.pv + 1
-       IN /\ pobj' = Append(pobj, NewObj(p, NextVer(p), fv, pv, Len(pobj) + 1, FALSE))
-          /\ last' = [a |-> "pipBegin", p |-> p, ver |-> NextVer(p), kind |-> kind, fv |-> fv, pv |-> pv]
+           pv == IF kind \in {"filters", "dflt"} THEN old.pv ELSE old.pv + 1
+           dv == IF kind = "dflt" THEN old.dv + 1 ELSE old.dv
+       IN /\ pobj' = Append(pobj, NewObjD(p, NextVer(p), fv, pv, dv, Len(pobj) + 1, FALSE))
+          /\ last' = [a |-> "pipBegin", p |-> p, ver |-> NextVer(p), kind |-> kind, fv |-> fv, pv |-> pv, dv |-> dv]
     /\ u' = [op |-> "pip", p |-> p, new |-> Len(pobj) + 1, i |-> 1]
     /\ cnt' = [cnt EXCEPT !.pip = @ + 1]
     /\ UNCHANGED <<muxInst, sgen, ns, dead, lim, rq>>
@@ -182,6 +203,12 @@ PipInheritF ==
                         ![u.new].ref[u.i] = IF reuse THEN pobj[old].ref[u.i] ELSE IF m = "fresh" THEN u.new ELSE pobj[old].ref[u.i],
                         \* Pipeline.reload: InjectResiliencePolicy(p.resilience) on the instance just initialised / inherited
                         ![u.new].pol[u.i] = IF k \notin Resilient THEN 0 ELSE IF reuse THEN pobj[old].pol[u.i] ELSE pobj[u.new].pv,
+                        \* the limiter of the default-policy rule: taken over only if the rule still falls under the same policy
+                        ![u.new].dref[u.i] = IF k \notin Limiting THEN 0
+                                             ELSE IF reuse THEN pobj[old].dref[u.i]
+                                             ELSE IF m = "fresh" THEN u.new
+                                             ELSE IF pobj[u.new].dv = pobj[old].dv \/ Stale THEN pobj[old].dref[u.i]
+                                             ELSE u.new,
                         ![old].ref[u.i] = IF m = "move" /\ ~reuse THEN 0 ELSE @]
           /\ last' = [a |-> "pipInherit", p |-> u.p, i |-> u.i, k |-> k]
     /\ u' = [u EXCEPT !.i = @ + 1]
@@ -203,14 +230,14 @@ PipStore ==
     /\ u.op = "pip" /\ u.i = NF + 2
     /\ ns' = [ns EXCEPT ![u.p] = u.new]
     /\ u' = Idle
-    /\ last' = [a |-> "pipStore", p |-> u.p, ver |-> pobj[u.new].ver, fv |-> pobj[u.new].fv, pv |-> pobj[u.new].pv]
+    /\ last' = [a |-> "pipStore", p |-> u.p, ver |-> pobj[u.new].ver, fv |-> pobj[u.new].fv, pv |-> pobj[u.new].pv, dv |-> pobj[u.new].dv]
     /\ UNCHANGED <<muxInst, sgen, pobj, dead, lim, rq, cnt>>
 
 (* ApplyPipeline with a spec equal to the running one: returns the previous entity               *)
 ApplySame(p) ==
     /\ CanBegin /\ cnt.same < MaxSame /\ ns[p] # 0
     /\ cnt' = [cnt EXCEPT !.same = @ + 1]
-    /\ last' = [a |-> "same", p |-> p, ver |-> VerOf(ns[p]), fv |-> FvOf(ns[p]), pv |-> PvOf(ns[p])]
+    /\ last' = [a |-> "same", p |-> p, ver |-> VerOf(ns[p]), fv |-> FvOf(ns[p]), pv |-> PvOf(ns[p]), dv |-> DvOf(ns[p])]
     /\ UNCHANGED <<muxInst, sgen, ns, pobj, dead, lim, u, rq>>
 
 (* a new generation of the TrafficController object itself: Inherit takes over the mutex and the  *)
@@ -224,17 +251,17 @@ CtlInherit ==
 (* CreatePipeline of another object: entity.Init ; Store                                         *)
 CreateInit(q) ==
     /\ CanBegin /\ cnt.other < MaxOther /\ q \in Others /\ ns[q] = 0
-    /\ pobj' = Append(pobj, NewObj(q, NextVer(q), NextVer(q), NextVer(q), Len(pobj) + 1, TRUE))
+    /\ pobj' = Append(pobj, NewObjD(q, NextVer(q), NextVer(q), NextVer(q), NextVer(q), Len(pobj) + 1, TRUE))
     /\ u' = [op |-> "create", p |-> q, new |-> Len(pobj) + 1, i |-> 0]
     /\ cnt' = [cnt EXCEPT !.other = @ + 1]
-    /\ last' = [a |-> "createInit", p |-> q, ver |-> NextVer(q), fv |-> NextVer(q), pv |-> NextVer(q)]
+    /\ last' = [a |-> "createInit", p |-> q, ver |-> NextVer(q), fv |-> NextVer(q), pv |-> NextVer(q), dv |-> NextVer(q)]
     /\ UNCHANGED <<muxInst, sgen, ns, dead, lim, rq>>
 
 CreateStore ==
     /\ u.op = "create"
     /\ ns' = [ns EXCEPT ![u.p] = u.new]
     /\ u' = Idle
-    /\ last' = [a |-> "createStore", p |-> u.p, ver |-> pobj[u.new].ver, fv |-> pobj[u.new].fv, pv |-> pobj[u.new].pv]
+    /\ last' = [a |-> "createStore", p |-> u.p, ver |-> pobj[u.new].ver, fv |-> pobj[u.new].fv, pv |-> pobj[u.new].pv, dv |-> pobj[u.new].dv]
     /\ UNCHANGED <<muxInst, sgen, pobj, dead, lim, rq, cnt>>
 
 (* DeletePipeline of another object: LoadAndDelete ; entity.Close                                *)
@@ -297,11 +324,12 @@ GetHandler(r) ==
            g == IF rq[r].tg = "srv" THEN Cur(r) ELSE 0
        IN IF ns[p] = 0
           THEN /\ rq' = [rq EXCEPT ![r].st = "503", ![r].pc = "done"]
-               /\ last' = [a |-> "get", r |-> r, p |-> p, found |-> FALSE, ver |-> 0, fv |-> 0, pv |-> 0, g |-> g, rv |-> 0, xf |-> FALSE]
+               /\ last' = [a |-> "get", r |-> r, p |-> p, found |-> FALSE, ver |-> 0, fv |-> 0, pv |-> 0, dv |-> 0, g |-> g, rv |-> 0, xf |-> FALSE]
           ELSE /\ rq' = [rq EXCEPT ![r].ph = ns[p], ![r].rw = g, ![r].xf = g, ![r].i = 1,
                                    ![r].pc = IF NF = 0 THEN "done" ELSE "run",
                                    ![r].st = IF NF = 0 THEN "ok" ELSE ""]
-               /\ last' = [a |-> "get", r |-> r, p |-> p, found |-> TRUE, ver |-> VerOf(ns[p]), fv |-> FvOf(ns[p]), pv |-> PvOf(ns[p]), g |-> g,
+               /\ last' = [a |-> "get", r |-> r, p |-> p, found |-> TRUE, ver |-> VerOf(ns[p]), fv |-> FvOf(ns[p]), pv |-> PvOf(ns[p]),
+                           dv |-> DvOf(ns[p]), g |-> g,
                            rv |-> IF g = 0 THEN 0 ELSE sgen[g].rv, xf |-> IF g = 0 THEN FALSE ELSE XffOf(g)]
     /\ UNCHANGED <<muxInst, sgen, ns, pobj, dead, lim, u, cnt>>
 
@@ -309,18 +337,26 @@ GetHandler(r) ==
 (* state cell the filter instance points to *now* and the policies the instance works under.      *)
 (* Outcome of the call for request r:                                                             *)
 (*   "fail"     the cell is gone (nil pointer / killed by a Close)                                *)
-(*   "limited"  class "x" at a Limiting kind whose cell has no permit left: 429, the flow ends    *)
+(*   "limited"  class "x" at a Limiting kind whose cell has no permit left: 429, the flow ends;    *)
+(*              class "d" at a Limiting kind whose default-policy cell was built from the tight  *)
+(*              policy and has no permit left                                                     *)
 (*   "bfail"    class "f" at a Resilient kind: the backend call fails under the policies          *)
 (*              pol[i] of the instance (their version shows in the number of attempts), the flow  *)
 (*              ends with the backend's failure                                                   *)
-(*   "pass"     otherwise; a class "x" request that passes a Limiting kind takes a permit         *)
+(*   "pass"     otherwise; a class "x" / "d" request that passes a Limiting kind takes a permit   *)
 Cell(o, i) == <<o.ref[i], i>>
 Permit(r) == LET o == pobj[rq[r].ph]  i == rq[r].i IN
     /\ Valid(o, i) /\ Kinds[i] \in Limiting /\ rq[r].cl = "x"
     /\ Cell(o, i) \in lim.off \/ Cell(o, i) \notin lim.spent
+DCell(o, i) == <<o.dref[i], i>>
+DCellTight(o, i) == o.dref[i] # 0 /\ DTight(pobj[o.dref[i]].dv)     \* the policy the cell was built from
+PermitD(r) == LET o == pobj[rq[r].ph]  i == rq[r].i IN
+    /\ Valid(o, i) /\ Kinds[i] \in Limiting /\ rq[r].cl = "d"
+    /\ ~DCellTight(o, i) \/ DCell(o, i) \notin lim.dspent
 Res(r) == LET o == pobj[rq[r].ph]  i == rq[r].i IN
     IF ~Valid(o, i) THEN "fail"
     ELSE IF Kinds[i] \in Limiting /\ rq[r].cl = "x" /\ ~Permit(r) THEN "limited"
+    ELSE IF Kinds[i] \in Limiting /\ rq[r].cl = "d" /\ ~PermitD(r) THEN "limited"
     ELSE IF Kinds[i] \in Resilient /\ rq[r].cl = "f" THEN "bfail"
     ELSE "pass"
 
@@ -336,17 +372,20 @@ Advance(r, res) == LET o == pobj[rq[r].ph]  i == rq[r].i IN
 (* more class "x" requests pass than it is configured to                                          *)
 RunObs(a, r, res) == LET o == pobj[rq[r].ph]  i == rq[r].i IN
     [a |-> a, r |-> r, i |-> i, k |-> Kinds[i], ok |-> res # "fail", res |-> res, cl |-> rq[r].cl,
-     ver |-> o.ver, fv |-> o.fv, pv |-> o.pv, closed |-> o.closed,
+     ver |-> o.ver, fv |-> o.fv, pv |-> o.pv, dv |-> o.dv, tight |-> DTight(o.dv), closed |-> o.closed,
      pol |-> IF res = "bfail" THEN o.pol[i] ELSE 0,
-     over |-> Permit(r) /\ o.perm[i] + 1 > Limit]
+     over |-> \/ Permit(r) /\ o.perm[i] + 1 > Limit
+              \/ PermitD(r) /\ DTight(o.dv) /\ o.dperm[i] + 1 > Limit]
 
 Handled(a, r) ==
     LET o == pobj[rq[r].ph]
         i == rq[r].i
         res == Res(r)
     IN /\ rq' = Advance(r, res)
-       /\ pobj' = IF Permit(r) THEN [pobj EXCEPT ![rq[r].ph].perm[i] = @ + 1] ELSE pobj
-       /\ lim' = IF Permit(r) /\ Cell(o, i) \notin lim.off THEN [lim EXCEPT !.spent = @ \cup {Cell(o, i)}] ELSE lim
+       /\ pobj' = IF Permit(r) THEN [pobj EXCEPT ![rq[r].ph].perm[i] = @ + 1]
+                  ELSE IF PermitD(r) THEN [pobj EXCEPT ![rq[r].ph].dperm[i] = @ + 1] ELSE pobj
+       /\ lim' = IF Permit(r) /\ Cell(o, i) \notin lim.off THEN [lim EXCEPT !.spent = @ \cup {Cell(o, i)}]
+                 ELSE IF PermitD(r) /\ DCellTight(o, i) THEN [lim EXCEPT !.dspent = @ \cup {DCell(o, i)}] ELSE lim
        /\ last' = RunObs(a, r, res)
 
 RunFilter(r) ==
@@ -415,7 +454,7 @@ Isolation == \A q \in Pipes : q # u.p => Servable(q)
 IsolationStep ==
     [][\A q \in Pipes : (q # u.p /\ q # u'.p) =>
             /\ ns'[q] = ns[q]
-            /\ ns[q] # 0 => [pobj'[ns[q]] EXCEPT !.perm = pobj[ns[q]].perm] = pobj[ns[q]]]_vars
+            /\ ns[q] # 0 => [pobj'[ns[q]] EXCEPT !.perm = pobj[ns[q]].perm, !.dperm = pobj[ns[q]].dperm] = pobj[ns[q]]]_vars
 
 (* an update that has completed leaves the updated object servable                               *)
 Settled == u.op = "idle" => \A q \in Pipes : Servable(q)
@@ -423,11 +462,18 @@ Settled == u.op = "idle" => \A q \in Pipes : Servable(q)
 (* the generation a request is handled under is the one configured: a Resilient filter works     *)
 (* under the policies of the generation the request holds (with Visibility: once an update of the *)
 (* resilience section has been applied, every new request is handled under the new policies) ...  *)
-Configured == \A r \in Reqs : rq[r].po # 0 => rq[r].po = pobj[rq[r].ph].pv
+(* ... a request for the URL that falls under the default policy is limited only by a generation  *)
+(* whose default policy limits at all (once an update that switches the default policy has been   *)
+(* applied, the limiter of the previous policy is no longer in force for new requests) ...        *)
+Configured == \A r \in Reqs :
+    /\ (rq[r].po # 0 => rq[r].po = pobj[rq[r].ph].pv)
+    /\ ((rq[r].cl = "d" /\ rq[r].st = "429") => DTight(pobj[rq[r].ph].dv))
 
 (* ... and no generation lets more class "x" requests pass than it is configured to, whatever a    *)
 (* Close of another generation did to a state cell the two share                                  *)
-Limited == \A id \in 1..Len(pobj) : \A i \in 1..NF : pobj[id].perm[i] <= Limit
+Limited == \A id \in 1..Len(pobj) : \A i \in 1..NF :
+    /\ pobj[id].perm[i] <= Limit
+    /\ (DTight(pobj[id].dv) => pobj[id].dperm[i] <= Limit)
 
 (* applying an unchanged spec changes nothing                                                    *)
 NoOp == [][last'.a \in {"same", "ctl"} => /\ ns' = ns /\ pobj' = pobj /\ dead' = dead /\ lim' = lim /\ muxInst' = muxInst /\ sgen' = sgen]_vars
